@@ -338,6 +338,10 @@ Proof.
   assert (Hcw : (w - 1) mod 256 + 256 * (((w - 1) / 256) mod 256) + 65536 * (((w - 1) / 65536) mod 256) + 1 = w) by lia.
   assert (Hch : (h - 1) mod 256 + 256 * (((h - 1) / 256) mod 256) + 65536 * (((h - 1) / 65536) mod 256) + 1 = h) by lia.
   rewrite Hcw, Hch.
+  (* tolerate the canvas-area cap of the demuxer (same as container.Parser.parseVP8X), if present *)
+  try (match goal with |- context [w * h >=? D.MaxImageArea] =>
+         destruct (Z.geb_spec (w * h) D.MaxImageArea) as [Hbad|_];
+         [exfalso; unfold D.MaxImageArea in Hbad; nia|] end).
   assert (Han : negb ((flags / 2) mod 2 =? 0) = false) by (rewrite Hanim; reflexivity).
   rewrite Han. fold ft. fold vx. rewrite Ed. cbn [bind].
   rewrite G2. change (D.len [D.mkfi (Some bs) alph w h 0 0 0 true hasA 0 0] =? 0) with false. reflexivity.
